@@ -371,12 +371,21 @@ def lookupFields (tbl : List (Nat × List Field)) (c : Nat) : List Field :=
   | some p => p.2
   | none => []
 
-/-- `fields[f.name] = f` on an insertion-ordered dict: an existing name keeps its position -/
+/-- `fields[f.name] = f` on an insertion-ordered dict: an existing name keeps its position and takes the new field.
+This is field OVERRIDING: a class that declares a name of one of its bases again (`engine: ElectricEngine` over
+`engine: Engine`, `parts: List[Battery]` over `List[Part]`, `seats: Optional[int]` over `int`) has ONE field of that name,
+at the position where the name was first introduced (`dataclasses.fields` order), with the annotation of the most derived
+declaration (what `typing.get_type_hints(cls)[name]` reports: it walks `reversed(cls.__mro__)` and lets later classes
+overwrite earlier ones). Theorems: Props/C17Override.lean. -/
 def upsert (fs : List Field) (f : Field) : List Field :=
   if fs.any (fun g => g.name == f.name) then fs.map (fun g => if g.name == f.name then f else g) else fs ++ [f]
 
 /-- `dataclasses.fields(cls)` for every class (assumed behaviour of `dataclasses`: the fields of the bases in
-reverse MRO order — for hierarchies without diamonds: bases right to left — then the own ones) -/
+reverse MRO order — for hierarchies without diamonds: bases right to left — then the own ones; a name declared more
+than once along the way — by two bases, or by a base and the class itself — is ONE field, see `upsert`: of two bases
+the one listed first wins, the class' own declaration wins over every base). The `ann` of an entry is what
+`WrappedField.resolved_type` must analyse for that class: `get_type_hints(cls)[name]`, not the annotation of the class
+that first introduced the name. -/
 def fieldTable (defs : List ClassDef) : List (Nat × List Field) :=
   defs.foldl (fun tbl c =>
     tbl ++ [(c.id, ((c.bases.reverse.flatMap (lookupFields tbl)) ++ c.own).foldl upsert [])]) []
